@@ -13,6 +13,7 @@ def registry : List Suite := [
   Suites.Blocks.suite,
   Suites.Loop.mkSuite "loop-dl",
   Suites.Loop.mkSuite "lifecycle",
+  Suites.Loop.mkSuite "loop-magnet",
   Suites.Request.suite,
   Suites.Readpath.suite,
   Suites.WQ.suite,
